@@ -380,8 +380,9 @@ def connectivity(obs):
     return None
 
 
-def obs_seg_diff(a, b, tol=1e-9, arc_tol=1e-7):
-    """difference between two observed segments (both from live paths)"""
+def obs_seg_diff(a, b, tol=1e-9, arc_tol=1e-7, arc_abs=0.0):
+    """difference between two observed segments (both from live paths); arc points may differ by arc_tol relative to the
+    arc's own coordinates or by arc_abs absolutely, whichever is larger"""
     if a["k"] != b["k"]:
         return "kind %s vs %s" % (a["k"], b["k"])
     for f in ("start", "end", "c", "c1", "c2"):
@@ -395,16 +396,16 @@ def obs_seg_diff(a, b, tol=1e-9, arc_tol=1e-7):
         if pa is not None:
             scale = max([1.0] + [abs(v) for q in pa + pb for v in q])
             for p, q in zip(pa, pb):
-                if math.hypot(p[0] - q[0], p[1] - q[1]) > arc_tol * scale:
+                if math.hypot(p[0] - q[0], p[1] - q[1]) > max(arc_tol * scale, arc_abs):
                     return "arc point %r vs %r" % (p, q)
     return None
 
 
-def obs_segs_diff(a, b, tol=1e-9, arc_tol=1e-7):
+def obs_segs_diff(a, b, tol=1e-9, arc_tol=1e-7, arc_abs=0.0):
     if len(a) != len(b):
         return "length %d vs %d" % (len(a), len(b))
     for i, (x, y) in enumerate(zip(a, b)):
-        d = obs_seg_diff(x, y, tol, arc_tol)
+        d = obs_seg_diff(x, y, tol, arc_tol, arc_abs)
         if d:
             return "segment %d: %s" % (i, d)
     return None
